@@ -713,6 +713,19 @@ func (s *DB) getHistoricRootsAndNodes(
 			}
 		}
 	}
+	// Nodes are content-addressed, so a node that a child version dropped can be
+	// part of a later version again (for instance after a delete restored
+	// earlier content). Never offer a node that the version behind this handle
+	// still uses.
+	err = s.crdt.Mast.DiffLinks(ctx, nil, func(removed bool, link interface{}) (bool, error) {
+		if ls, ok := link.(string); ok && !removed {
+			delete(candidateBlocks, ls)
+		}
+		return true, nil
+	})
+	if err != nil {
+		return nil, nil, fmt.Errorf("list nodes in use: %w", err)
+	}
 	nodes = make([]string, 0, len(candidateBlocks))
 	for k := range candidateBlocks {
 		nodes = append(nodes, k)
